@@ -47,6 +47,15 @@ Theorem C13_proxy_all : forall h s h' p, proxy h s = Ok (h', p) ->
 Proof. exact proxy_lemma. Qed.
 Print Assumptions C13_proxy_all.
 
+(* ... including every derived property read through either handle: H (modelled by its specification, see Model.v)
+   is the same function of the same cells, in every later heap; reading it (OReadH) never changes the state *)
+Theorem C13_proxy_same_H : forall h s h' p, proxy h s = Ok (h', p) -> forall h2, enthalpy h2 p = enthalpy h2 s.
+Proof. intros h s h' p E h2. unfold proxy in E. inversion E; subst. reflexivity. Qed.
+Print Assumptions C13_proxy_same_H.
+Theorem C13_read_H_pure : forall pk mw st i, fst (step pk mw st (OReadH i)) = st.
+Proof. intros pk mw st i. simpl. destruct (nth_error (ss st) i); reflexivity. Qed.
+Print Assumptions C13_read_H_pure.
+
 (* flow_proxy: exactly the flow data cells are shared; indexer, phase box and thermal condition are new;
    values are those of the original *)
 Theorem C13_flow_proxy_flows_only : forall h s h2 p, hwf h -> swf h s -> flow_proxy h s = Ok (h2, p) ->
